@@ -9,6 +9,8 @@ import itertools
 import json
 import math
 import os
+import shutil
+import tempfile
 import warnings
 
 import numpy as np
@@ -71,6 +73,12 @@ TRUSTED = [
     "tether: executed at Float in the model (sqrt, normalised direction (dx/r, dy/r) instead of arctan2/cos/sin and "
     "matrix products), compared with 1e-9*(1+|coordinates|); the tether_* theorems are about the same definitions "
     "at R (rounding is not modelled)",
+    "matplotlib (Line2D.get_data(orig=True) returns the doubles it was given): the tether ends are read from the line "
+    "that the public ImageStack.plot_tether(axes) draws; internal members of pylake (TiffStack.get_frame behind the stack, "
+    "detail.widefield.Roi / the legacy frame-range helper, TiffFrame.raw_data) are asked only while they are reachable - "
+    "every observation they give is also made through the public API (stack[i].get_image(), crop_by_pixels + get_image, "
+    "frame_timestamp_ranges(include_dead_time=True) of a legacy export), except pages/ROI behind a ROTATED tether "
+    "(raw_data; without it: timestamps + shape + bead positions) and the legacy helper on an empty list",
     "bead stacks: skimage.transform.warp (bilinear) moves the intensity-weighted centroid of a Gaussian spot of sigma >= 1.2 px "
     "like the affine map it is given (measured: < 0.02 px over 80000 spots on /repo; compared with 0.25 px); the spots are "
     "located without using the expected positions (two brightest maxima, centroid in a window of 3 sigma + 1)",
@@ -194,6 +202,58 @@ def run_prog(stack, prog):
     return stack, None
 
 
+UNSEEN = "?"  # an observation that needs a private member of pylake which is not there (any more): never compared
+
+_AXES = None
+
+
+def tether_ends(stack):
+    """The tether of a stack through the PUBLIC API: `ImageStack.plot_tether(axes)` draws the line between the two tether
+    ends (in image units, the units of `define_tether`) into a matplotlib Axes and raises ValueError for a stack without
+    tether.  Returns None | [x1, y1, x2, y2] (the doubles handed to matplotlib, bit for bit)."""
+    global _AXES
+    if _AXES is None:
+        os.environ.setdefault("MPLBACKEND", "Agg")
+        from matplotlib.figure import Figure
+
+        _AXES = Figure().add_subplot()
+    ax = _AXES
+    before = list(ax.lines)
+    try:
+        stack.plot_tether(axes=ax)
+    except ValueError:
+        return None  # "A tether is not defined yet for this image stack."
+    new = [ln for ln in ax.lines if not any(ln is b for b in before)]
+    try:
+        if len(new) != 1:
+            raise RuntimeError(f"plot_tether drew {len(new)} lines")
+        x, y = (np.asarray(v, dtype=float) for v in new[0].get_data(orig=True))
+    finally:
+        for ln in new:
+            ln.remove()
+    if x.shape != (2,) or y.shape != (2,):
+        raise RuntimeError(f"plot_tether drew a line of {x.shape} points")
+    if stack.pixelsize_um:  # calibrated stacks: image units -> pixels (none of the generated stacks is calibrated)
+        fx, fy = (float(v) for v in np.asarray(stack.pixelsize_um))
+        x, y = x / fx, y / fy
+    return [float(x[0]), float(y[0]), float(x[1]), float(y[1])]
+
+
+def raw_frames(stack):
+    """The un-rotated pixel data of the frames of a (tethered) stack, or None.  Iterating over an ImageStack is public;
+    `raw_data` is an attribute of pylake's internal frame class: it is read only while it is there."""
+    frames = list(stack)
+    out = []
+    for f in frames:
+        try:
+            out.append(np.asarray(f.raw_data))
+        except AttributeError as e:
+            if missing_here(e):
+                return None
+            raise
+    return np.stack(out, axis=0)
+
+
 def observe(spec, stack):
     """canonical observables of a stack: the string the model prints + num_frames/shape/source"""
     nf = int(stack.num_frames)
@@ -201,33 +261,46 @@ def observe(spec, stack):
     img = np.asarray(stack.get_image())
     src = "image"
     dec = None
-    if stack._src._tether:
+    ends = tether_ends(stack)
+    seen = True
+    if ends is not None:
         # a rotated tether interpolates pixel values with skimage.warp (outside the model): frames and ROI are
         # identified from the un-rotated raw data of the same frames; `src` records whether get_image() equals it
-        raw = np.stack([stack._get_frame(i).raw_data for i in range(nf)], axis=0)
-        dec = bt.decode(spec, raw)
-        if tuple(raw.shape) != shape or img.size != raw.size:
-            src = "raw-shape-mismatch"
-        elif not np.array_equal(img.reshape(shape), raw):
-            src = "raw"
+        raw = raw_frames(stack)
+        if raw is not None:
+            dec = bt.decode(spec, raw)
+            if tuple(raw.shape) != shape or img.size != raw.size:
+                src = "raw-shape-mismatch"
+            elif not np.array_equal(img.reshape(shape), raw):
+                src = "raw"
+        else:
+            # the raw data cannot be reached: pages and ROI stay unobserved (the frames are still tied by their
+            # timestamps and the shape below, the position of the ROI by the bead stacks).  What the image itself decodes
+            # to is kept in `src`: the oracle needs it where the tether was horizontal already (pixel values untouched);
+            # for an interpolated image it means nothing and is not looked at
+            seen = False
+            d = bt.decode(spec, img.reshape(shape)) if img.size == int(np.prod(shape)) else None
+            if d is not None and contiguous(d[1]) and contiguous(d[2]):
+                src = f"{UNSEEN}{enc_list(d[0])}/{d[2][0]},{d[2][-1] + 1},{d[1][0]},{d[1][-1] + 1}"
+            else:
+                src = UNSEEN + "undecodable"
     elif img.size == int(np.prod(shape)):
         dec = bt.decode(spec, img.reshape(shape))
-    if dec is None:
-        return f"undecodable shape={shape} squeezed={tuple(img.shape)}"
-    pages, rows, cols = dec
-    if not (contiguous(rows) and contiguous(cols)):
-        return f"non-contiguous rows={rows} cols={cols}"
-    roi = f"{cols[0]},{cols[-1] + 1},{rows[0]},{rows[-1] + 1}"
+    if not seen:
+        pages_s, roi = UNSEEN, UNSEEN
+    else:
+        if dec is None:
+            return f"undecodable shape={shape} squeezed={tuple(img.shape)}"
+        pages, rows, cols = dec
+        if not (contiguous(rows) and contiguous(cols)):
+            return f"non-contiguous rows={rows} cols={cols}"
+        pages_s = enc_list(pages)
+        roi = f"{cols[0]},{cols[-1] + 1},{rows[0]},{rows[-1] + 1}"
     expo = stack.frame_timestamp_ranges()
     dead = stack.frame_timestamp_ranges(include_dead_time=True)
-    teth = stack._src._tether
-    if teth:
-        (x1, y1), (x2, y2) = teth.ends
-        tt = ",".join(enc_float(v) for v in (x1, y1, x2, y2))
-    else:
-        tt = "none"
+    tt = "none" if ends is None else ",".join(enc_float(v) for v in ends)
     return (
-        f"ok {enc_list(pages)} {roi} {show_ranges(expo)} {show_ranges(dead)} {int(stack.start)} {int(stack.stop)} {tt} "
+        f"ok {pages_s} {roi} {show_ranges(expo)} {show_ranges(dead)} {int(stack.start)} {int(stack.stop)} {tt} "
         f"nf={nf} shape={'x'.join(map(str, shape))} src={src}"
     )
 
@@ -270,11 +343,7 @@ def observe_beads(spec, stack, pre):
     if img.size != int(np.prod(shape)):
         return f"undecodable shape={shape} squeezed={tuple(img.shape)}"
     img = img.reshape(shape)
-    teth = stack._src._tether
-    ends = None
-    if teth:
-        (x1, y1), (x2, y2) = teth.ends
-        ends = [float(x1), float(y1), float(x2), float(y2)]
+    ends = tether_ends(stack)
     return "B" + json.dumps({
         "expo": show_ranges(stack.frame_timestamp_ranges()), "dead": show_ranges(stack.frame_timestamp_ranges(include_dead_time=True)),
         "start": int(stack.start), "stop": int(stack.stop), "tether": ends, "nf": nf, "shape": list(shape),
@@ -297,6 +366,162 @@ def impl_beads(spec, prog):
             return err_token(e)
 
 
+# ---- anchored internals (TiffStack.get_frame, Roi.crop) and the legacy frame-range helper: each observation is made
+# through the public API; the internal function itself is ALSO asked while it can be reached (the two answers must be the
+# same), and silently left out when a refactoring renamed or moved it
+
+
+def missing_here(e):
+    """an AttributeError raised by an attribute access written in THIS file (not somewhere inside pylake): the harness
+    reached for an internal member that is not there (any more)"""
+    tb, last = e.__traceback__, None
+    while tb is not None:
+        tb, last = tb.tb_next, tb
+    return isinstance(e, AttributeError) and last is not None and os.path.abspath(last.tb_frame.f_code.co_filename) == os.path.abspath(__file__)
+
+
+def both(public, direct):
+    """one answer from the public route and the direct call of the internal function (UNSEEN = not reachable)"""
+    if direct == UNSEEN or direct == public:
+        return public
+    if public == UNSEEN:
+        return direct
+    return f"public={public} direct={direct}"
+
+
+def file_and_page(spec, image):
+    """which page of which file an image (with frame axis) shows"""
+    dec = bt.decode(spec, image)
+    if dec is None:
+        return "undecodable"
+    g = dec[0][0]
+    for fi, n in enumerate(spec["files"]):
+        if g < n:
+            return f"{fi} {g}"
+        g -= n
+    return "beyond"
+
+
+def impl_page(spec, frame):
+    """which page of which file does frame `frame` of a multi-file stack show?  Public: stack[frame].get_image();
+    direct: the anchored TiffStack.get_frame(frame) behind the stack (private attribute: only while it is there)"""
+    with warnings.catch_warnings():
+        warnings.simplefilter("ignore")
+        try:
+            stack, _, _ = stacks().get(spec)
+            one = stack[frame]
+            public = file_and_page(spec, first_frame(one)[np.newaxis])
+            try:
+                direct = file_and_page(spec, np.asarray(stack._src.get_frame(frame).data)[np.newaxis])
+            except AttributeError as e:
+                if not missing_here(e):
+                    raise
+                direct = UNSEEN
+            return both(public, direct)
+        except Exception as e:
+            return err_token(e)
+
+
+_PRIVATE = {}
+
+
+def private(name):
+    """an internal helper of pylake, or None when it is not where it used to be (then the public route alone is used)"""
+    if name not in _PRIVATE:
+        try:
+            import importlib
+
+            _PRIVATE[name] = getattr(importlib.import_module("lumicks.pylake.detail.widefield"), name)
+        except (ImportError, AttributeError):
+            _PRIVATE[name] = None
+    return _PRIVATE[name]
+
+
+def legacy_public(ts):
+    """frame ranges of a legacy export (Software 'Pylake v1.3.0', no exposure metadata) whose pages carry the DateTime
+    tags `ts` (shifted to a realistic epoch): ImageStack.frame_timestamp_ranges(include_dead_time=True)"""
+    import tifffile
+
+    spec = bt.make_spec(files=(len(ts),), h=2, w=2, exposure=None, software="Pylake v1.3.0")
+    raw = bt.raw_pages(spec)
+    d = tempfile.mkdtemp(prefix="verif_legacy_")
+    try:
+        path = os.path.join(d, "legacy.tiff")
+        with tifffile.TiffWriter(path) as tif:
+            for p, (a, b) in enumerate(ts):
+                dt = f"{bt.T0 + a}:{bt.T0 + b}"
+                tif.write(raw[p], description=json.dumps(bt.description(spec, p), indent=4), software=spec["software"],
+                          metadata=None, contiguous=False, photometric="minisblack",
+                          extratags=((274, "H", 1, 1, False), (306, "s", len(dt), dt, False)))
+        stack = bt.open_stack([path])
+        try:
+            return [(int(a) - bt.T0, int(b) - bt.T0) for a, b in stack.frame_timestamp_ranges(include_dead_time=True)]
+        finally:
+            stack.close()
+    finally:
+        shutil.rmtree(d, ignore_errors=True)
+
+
+def impl_legacy(ts):
+    with warnings.catch_warnings():
+        warnings.simplefilter("ignore")
+        f = private("_frame_timestamps_from_exposure_timestamps")
+        direct = UNSEEN
+        if f is not None:
+            try:
+                direct = show_ranges(f(list(ts)))
+            except Exception as e:
+                direct = err_token(e)
+        public = UNSEEN  # a stack has at least one frame: the empty list exists for the helper only
+        if ts:
+            try:
+                public = show_ranges(legacy_public(ts))
+            except Exception as e:
+                public = err_token(e)
+        return both(public, direct)
+
+
+def roi_public(roi, crop):
+    """Roi(*roi).crop(crop) through the public API: the 4x5 stack cropped to `roi`, then crop_by_pixels(*crop); the
+    window is read off the pixel values of get_image()"""
+    spec = small_spec(2)
+    if not (0 <= roi[0] < roi[1] <= spec["w"] and 0 <= roi[2] < roi[3] <= spec["h"]):
+        return UNSEEN
+    stack, _, _ = stacks().get(spec)
+    if list(roi) != [0, spec["w"], 0, spec["h"]]:
+        stack = stack.crop_by_pixels(*roi)
+    out = stack.crop_by_pixels(*crop)
+    img = np.asarray(out.get_image())
+    shape = tuple(int(x) for x in out.shape)
+    dec = bt.decode(spec, img.reshape(shape)) if img.size == int(np.prod(shape)) else None
+    if dec is None:
+        return f"undecodable shape={shape}"
+    _, rows, cols = dec
+    if not (contiguous(rows) and contiguous(cols)):
+        return f"non-contiguous rows={rows} cols={cols}"
+    return f"{cols[0]},{cols[-1] + 1},{rows[0]},{rows[-1] + 1}"
+
+
+def impl_roi(roi, crop):
+    """direct call of the anchored Roi.crop while the class can be imported (the stream 'roi-stack' ties the same
+    windows through crop_by_pixels + get_image); the public route for every case once it cannot"""
+    with warnings.catch_warnings():
+        warnings.simplefilter("ignore")
+        Roi = private("Roi")
+        try:
+            if Roi is not None:
+                try:
+                    r = Roi(*roi).crop(np.array(crop, dtype=object) if None in crop else np.array(crop))
+                    return f"{int(r.x_min)},{int(r.x_max)},{int(r.y_min)},{int(r.y_max)}"
+                except AttributeError as e:
+                    if not missing_here(e):
+                        raise
+                    _PRIVATE["Roi"] = None  # the class is there, its interface is not: public route from now on
+            return roi_public(roi, crop)
+        except Exception as e:
+            return err_token(e)
+
+
 def impl(case):
     k = case["op"]
     if k == "beads":
@@ -312,40 +537,11 @@ def impl(case):
         except Exception as ex:
             return [errname(ex)]
     if k == "page":
-        # public API only: which page of which file does frame `frame` of a multi-file stack show?
-        spec = case["spec"]
-        with warnings.catch_warnings():
-            warnings.simplefilter("ignore")
-            try:
-                stack, _, _ = stacks().get(spec)
-                tf = stack._src.get_frame(case["frame"])
-                img = np.asarray(tf.data)
-                dec = bt.decode(spec, img[np.newaxis])
-                if dec is None:
-                    return ["undecodable"]
-                g = dec[0][0]
-                for fi, n in enumerate(spec["files"]):
-                    if g < n:
-                        return [f"{fi} {g}"]
-                    g -= n
-                return ["beyond"]
-            except Exception as e:
-                return [err_token(e)]
+        return [impl_page(case["spec"], case["frame"])]
     if k == "legacy":
-        from lumicks.pylake.detail.widefield import _frame_timestamps_from_exposure_timestamps as f
-
-        try:
-            return [show_ranges(f([tuple(x) for x in case["ts"]]))]
-        except Exception as e:
-            return [err_token(e)]
+        return [impl_legacy([tuple(int(v) for v in x) for x in case["ts"]])]
     if k == "roi":
-        from lumicks.pylake.detail.widefield import Roi
-
-        try:
-            r = Roi(*case["roi"]).crop(np.array(case["crop"], dtype=object) if None in case["crop"] else np.array(case["crop"]))
-            return [f"{int(r.x_min)},{int(r.x_max)},{int(r.y_min)},{int(r.y_max)}"]
-        except Exception as e:
-            return [err_token(e)]
+        return [impl_roi(case["roi"], case["crop"])]
     raise ValueError(k)
 
 
@@ -547,7 +743,9 @@ def agree(case, i, ia, ma):
         if not ia.startswith("ok "):
             return False
         it = ia.split(" ")
-        return it[1:7] == mt[1:7] and tether_close(it[7], mt[7])
+        return all(a == UNSEEN or a == b for a, b in zip(it[1:3], mt[1:3])) and it[3:7] == mt[3:7] and tether_close(it[7], mt[7])
+    if ia == UNSEEN:
+        return True  # an internal helper with no public counterpart for this input could not be reached: nothing to compare
     return ia == ma
 
 
@@ -682,9 +880,9 @@ def oracle_prog(spec, prog, ans):
         return f"selection: array semantics select frames {pages}, implementation says {ans[:200]}"
     t = ans.split(" ")
     exp_roi = f"{cols[0]},{cols[-1] + 1},{rows[0]},{rows[-1] + 1}"
-    if t[1] != enc_list(pages):
+    if t[1] != UNSEEN and t[1] != enc_list(pages):
         return f"frames: implementation shows pages {t[1]}, the same numpy indexing selects {pages}"
-    if t[2] != exp_roi:
+    if t[2] != UNSEEN and t[2] != exp_roi:
         return f"roi: implementation shows x0,x1,y0,y1={t[2]}, the same numpy indexing selects {exp_roi}"
     expo = show_ranges([(table[p][0], table[p][2]) for p in pages])
     dead = show_ranges(legacy_dead_ranges(table, pages) if legacy else [(table[p][0], table[p][1]) for p in pages])
@@ -699,10 +897,10 @@ def oracle_prog(spec, prog, ans):
     exp_shape = [len(pages), len(rows), len(cols)] + ([3] if spec["colour"] != "grey" else [])
     if nf != len(pages) or shape != exp_shape:
         return f"shape: num_frames={nf} shape={shape}, expected {exp_shape}"
-    if t[10] not in ("src=image", "src=raw"):
+    if t[10] not in ("src=image", "src=raw") and not t[10].startswith("src=" + UNSEEN):
         return f"shape: raw data shape differs from stack.shape ({t[10]})"
     if geo["defined"]:
-        if geo.get("flat") and t[10] != "src=image":
+        if geo.get("flat") and t[10] not in ("src=image", f"src={UNSEEN}{enc_list(pages)}/{exp_roi}"):
             return "tether-identity: a horizontal left-to-right tether must leave the pixel values untouched"
         if t[7] == "none":
             return "tether: define_tether was called but the stack has no tether"
@@ -842,6 +1040,8 @@ def oracle(case, ia):
         return None if ia[0] == exp else f"page-lookup: frame {case['frame']} of files {case['spec']['files']} is {exp}, got {ia[0]}"
     if k == "legacy":
         ts = case["ts"]
+        if ia[0] == UNSEEN:
+            return None
         if not ts:
             return None if ia[0] == "IndexError" else f"legacy: empty input should raise, got {ia[0]}"
         table = [(a, b, b) for a, b in ts]
@@ -873,8 +1073,7 @@ def nontrivial(case, ia):
         t = a.split(" ")
         spec = case["spec"]
         n = sum(spec["files"])
-        pages = json.loads(t[1])
-        return len(pages) < n or t[2] != f"0,{spec['w']},0,{spec['h']}" or t[7] != "none"
+        return t[7] != "none" or t[1] == UNSEEN or len(json.loads(t[1])) < n or t[2] != f"0,{spec['w']},0,{spec['h']}"
     if k == "roi":
         return ia[0] != ",".join(str(x) for x in case["roi"])
     if k == "page":
@@ -1502,7 +1701,10 @@ def extra_coverage(results):
             files[len(s["files"])] = files.get(len(s["files"]), 0) + 1
             for st in c["prog"]:
                 lens[st[0]] = lens.get(st[0], 0) + 1
+    unseen = sum(1 for r in results for a in r["impl"] if a == UNSEEN or f" {UNSEEN} " in a or "src=" + UNSEEN in a)
     return {
+        "internal_helpers_reached": {k: v is not None for k, v in sorted(_PRIVATE.items())},
+        "answers_with_unobserved_internals": unseen,
         "case_kinds": kinds, "error_kinds": errs, "stack_sizes": sizes, "colour_formats": colours, "files_per_stack": files,
         "operations_by_kind": lens, "bead_cases_followed": beads, "exhaustive": False,
         "exhaustive_note": "small-scope, roi-exhaustive, py-selftest, pages, legacy streams enumerate their finite spaces "
